@@ -609,15 +609,15 @@ def run(tier, seed):
                 svs.append(report.Verdict(d["name"], d["status"], d["backend"], d["seconds"], d["kind"], d["where"], d["detail"]))
     run.add_verdicts(svs)
     run.notes.append({"SSModel regime decisions": paths})
-    ev1, f1 = log_case(seed)
+    ev1, f1 = report.guarded(run, log_case, seed)
     run.bounded.append(dict(name="float: d2c(c2d(model)) == model for zoh/zoha/foh/tustin with oscillatory modes anywhere below Nyquist (eig/log route), c2d A == expm(A h)",
                             evaluations=ev1, failures=0 if f1 is None else 1, label="bounded (never counted as proved)"))
-    ev2, f2 = sampled_case(seed)
+    ev2, f2 = report.guarded(run, sampled_case, seed)
     run.bounded.append(dict(name="float: zoh/foh discrete models vs solve_ivp of the continuous model under the hold", evaluations=ev2,
                             failures=0 if f2 is None else 1, label="bounded (never counted as proved)"))
     known = {k_["obligation"]: k_ for k_ in run.known if k_.get("status") == "open"}
     stats = {}
-    ev3, f3 = float_sweep(report.REPO, quick=(tier == "quick"), known=tuple(known), stats=stats)
+    ev3, f3 = report.guarded(run, float_sweep, report.REPO, quick=(tier == "quick"), known=tuple(known), stats=stats)
     run.bounded.append(dict(name="float: real expmint/getEPQ1/getEPQ2/getEPQ/getEPQ_pow with their own norm-based branch selection vs 100-digit Taylor sums, "
                                  "5 matrices x %d steps + 4 stiff matrices (slow pole 1e-3..1e-7, soft spring) at ||A h||_1 on both sides of every switch" % (8 if tier == "quick" else 40),
                             evaluations=ev3, failures=0 if f3 is None else 1, inside_known_finding_region=len(stats.get("d11_hits", [])),
